@@ -7,16 +7,18 @@ use crate::run::{self, Answer, End, Limits, Mode};
 use crate::source::{hash_str, Source};
 use serde_json::json;
 
-const NQ: usize = 4; // q0..q2 data, q3 = user counter read at the end
+
 
 struct Gen<'a, 'b> {
     s: &'a mut Source<'b>,
     fd: bool,
+    /// number of data variables
+    nd: usize,
 }
 
 impl<'a, 'b> Gen<'a, 'b> {
     fn var(&mut self) -> Term {
-        Term::Var(self.s.below(3) as VarId)
+        Term::Var(self.s.below(self.nd) as VarId)
     }
     fn int(&mut self) -> Term {
         Term::Int(self.s.range(0, 4))
@@ -56,7 +58,7 @@ impl<'a, 'b> Gen<'a, 'b> {
                 3 => Goal::Fd(FdGoal::Plus(self.operand(), self.operand(), self.operand())),
                 4 => Goal::Fd(FdGoal::Lt(self.operand(), self.operand())),
                 5 => Goal::UserUpd(1 + self.s.below(3) as i64),
-                6 => Goal::Fd(FdGoal::Distinct(Term::list(vec![Term::Var(0), Term::Var(1), Term::Var(2)]))),
+                6 => Goal::Fd(FdGoal::Distinct(Term::list((0..self.nd).map(|v| Term::Var(v as VarId)).collect()))),
                 _ => {
                     let a = self.s.range(0, 4);
                     let b = self.s.range(a, 4);
@@ -83,11 +85,15 @@ impl<'a, 'b> Gen<'a, 'b> {
 pub struct Case {
     pub prefix: Vec<Goal>,
     pub branches: Vec<Vec<Goal>>,
+    /// goals after the disjunction (late domains)
+    pub suffix: Vec<Goal>,
+    /// number of data variables; the user counter is read into the query variable after them
+    pub nd: usize,
 }
 
 fn decode(s: &mut Source) -> Case {
     let fd = s.flag(128);
-    let mut g = Gen { s, fd };
+    let mut g = Gen { s, fd, nd: 3 };
     let mut prefix = vec![];
     if fd {
         // every FD variable gets a domain in the shared prefix
@@ -101,14 +107,20 @@ fn decode(s: &mut Source) -> Case {
     }
     let nb = 2 + if g.s.flag(60) { 1 } else { 0 };
     let branches = (0..nb).map(|_| g.branch()).collect();
-    Case { prefix, branches }
+    Case { prefix, branches, suffix: vec![], nd: 3 }
 }
 
-fn prog(prefix: &[Goal], middle: Goal) -> Program {
-    let mut body = prefix.to_vec();
+fn prog(c: &Case, middle: Goal) -> Program {
+    let mut body = c.prefix.to_vec();
     body.push(middle);
-    body.push(Goal::ReadUser(Term::Var(3)));
-    Program { nq: NQ, body }
+    body.extend(c.suffix.iter().cloned());
+    // the user counter is read (which unifies the last query variable: one more run of every
+    // pending constraint) only when some goal of the case updates it
+    let updates = c.prefix.iter().chain(c.branches.iter().flatten()).chain(c.suffix.iter()).any(|g| g.any(&|x| matches!(x, Goal::UserUpd(_))));
+    if updates {
+        body.push(Goal::ReadUser(Term::Var(c.nd as VarId)));
+    }
+    Program { nq: c.nd + 1, body }
 }
 
 fn run1(p: &Program) -> Result<Vec<Answer>, Option<crate::guard::PanicInfo>> {
@@ -122,13 +134,13 @@ fn run1(p: &Program) -> Result<Vec<Answer>, Option<crate::guard::PanicInfo>> {
 
 pub fn eval(c: &Case, ctx: &Ctx) -> CaseInfo {
     let mut info = CaseInfo::default();
-    let whole = prog(&c.prefix, Goal::Conde(c.branches.clone()));
+    let whole = prog(c, Goal::Conde(c.branches.clone()));
     let desc = whole.show();
     info.key = hash_str(&desc);
     let mut union: Vec<Answer> = vec![];
     let mut per = vec![];
     for b in &c.branches {
-        let p = prog(&c.prefix, Goal::Conj(b.clone()));
+        let p = prog(c, Goal::Conj(b.clone()));
         match run1(&p) {
             Ok(a) => {
                 per.push(a.len());
@@ -172,7 +184,7 @@ pub fn eval(c: &Case, ctx: &Ctx) -> CaseInfo {
     rev.reverse();
     orders.push(rev);
     for (i, br) in orders.iter().enumerate() {
-        let p = prog(&c.prefix, Goal::Conde(br.clone()));
+        let p = prog(c, Goal::Conde(br.clone()));
         let got = match run1(&p) {
             Ok(a) => a,
             Err(Some(pi)) => {
@@ -212,6 +224,128 @@ fn run_family(bytes: &[u8], ctx: &Ctx) -> CaseInfo {
     eval(&c, ctx)
 }
 
+/// FD constraints posted BEFORE any domain, variables bound by unification inside the branches,
+/// the domains posted after the disjunction (3-4 data variables).
+fn decode_late(s: &mut Source) -> Case {
+    let nd = 3 + s.below(2);
+    let mut g = Gen { s, fd: true, nd };
+    let all = Term::list((0..nd).map(|v| Term::Var(v as VarId)).collect());
+    let mut prefix = vec![];
+    let np = 1 + g.s.below(3);
+    for _ in 0..np {
+        let goal = match g.s.weighted(&[3, 3, 2, 2, 2, 1, 1]) {
+            0 => {
+                if g.s.flag(128) {
+                    Goal::Fd(FdGoal::Distinct(all.clone()))
+                } else {
+                    // a sub-list of the variables (at least two)
+                    let skip = g.s.below(nd);
+                    let skip2 = if nd > 3 && g.s.flag(128) { g.s.below(nd) } else { skip };
+                    Goal::Fd(FdGoal::Distinct(Term::list((0..nd).filter(|v| *v != skip && *v != skip2).map(|v| Term::Var(v as VarId)).collect())))
+                }
+            }
+            1 => Goal::Fd(FdGoal::Lte(g.var(), g.var())),
+            2 => Goal::Fd(FdGoal::Lt(g.var(), g.var())),
+            3 => Goal::Fd(FdGoal::Diseq(g.var(), g.operand())),
+            4 => Goal::Fd(FdGoal::Plus(g.var(), g.operand(), g.var())),
+            5 => Goal::UserUpd(1 + g.s.below(3) as i64),
+            _ => {
+                let a = g.s.range(0, 4);
+                let b = g.s.range(a, 4);
+                Goal::Fd(FdGoal::InFdRange(g.var(), a, b))
+            }
+        };
+        prefix.push(goal);
+    }
+    let nb = 2 + if g.s.flag(60) { 1 } else { 0 };
+    let mut branches = vec![];
+    // branches are aimed at one constraint of the prefix: bindings that jointly violate it (only
+    // the last binding decides), bindings that satisfy it, bindings of variables it does not
+    // mention, or unaimed goals
+    let targets: Vec<Goal> = prefix.iter().filter(|g| matches!(g, Goal::Fd(FdGoal::Distinct(_) | FdGoal::Lte(..) | FdGoal::Lt(..) | FdGoal::Diseq(..) | FdGoal::Plus(..)))).cloned().collect();
+    for _ in 0..nb {
+        let mode = if targets.is_empty() { 3 } else { g.s.weighted(&[3, 2, 3, 2]) };
+        if mode == 3 {
+            let n = 1 + g.s.below(3);
+            let b: Vec<Goal> = (0..n).map(|_| if g.s.flag(200) { Goal::Eq(g.var(), g.int()) } else { g.goal(true) }).collect();
+            branches.push(b);
+            continue;
+        }
+        let t = targets[g.s.below(targets.len())].clone();
+        let mut tv: Vec<VarId> = vec![];
+        t.visit_vars(&mut |v| {
+            if !tv.contains(&v) {
+                tv.push(v)
+            }
+        });
+        let k = g.s.range(0, 3);
+        let b: Vec<Goal> = match mode {
+            // violate
+            0 => match &t {
+                Goal::Fd(FdGoal::Distinct(_)) | Goal::Fd(FdGoal::Diseq(..)) if tv.len() >= 2 => {
+                    let i = g.s.below(tv.len());
+                    let j = (i + 1 + g.s.below(tv.len() - 1)) % tv.len();
+                    vec![Goal::Eq(Term::Var(tv[i]), Term::Int(k)), Goal::Eq(Term::Var(tv[j]), Term::Int(k))]
+                }
+                Goal::Fd(FdGoal::Lte(Term::Var(x), Term::Var(y))) | Goal::Fd(FdGoal::Lt(Term::Var(x), Term::Var(y))) if x != y => {
+                    let (first, second) = (Goal::Eq(Term::Var(*x), Term::Int(k + 1)), Goal::Eq(Term::Var(*y), Term::Int(k)));
+                    if g.s.flag(128) { vec![first, second] } else { vec![second, first] }
+                }
+                _ => tv.iter().map(|v| Goal::Eq(Term::Var(*v), Term::Int(k))).collect(),
+            },
+            // satisfy (pairwise different ascending values)
+            1 => tv.iter().enumerate().map(|(i, v)| Goal::Eq(Term::Var(*v), Term::Int((i as i64).min(4)))).collect(),
+            // bindings of variables the constraint does not mention
+            _ => {
+                let others: Vec<VarId> = (0..nd as VarId).filter(|v| !tv.contains(v)).collect();
+                if others.is_empty() {
+                    vec![Goal::Eq(g.var(), g.int())]
+                } else {
+                    let n = 1 + g.s.below(2.max(others.len()));
+                    (0..n).map(|i| Goal::Eq(Term::Var(others[i % others.len()]), Term::Int(k))).collect()
+                }
+            }
+        };
+        branches.push(b);
+    }
+    let mut suffix = vec![];
+    if g.s.flag(40) {
+        // something else between the disjunction and the domains
+        suffix.push(g.goal(false));
+    }
+    if g.s.flag(128) {
+        suffix.push(Goal::Fd(FdGoal::InFdRange(all, 0, 4)));
+    } else {
+        // only the variables that occur in a finite-domain goal need a domain
+        let mut used: Vec<VarId> = vec![];
+        let mut collect = |gl: &Goal| {
+            if let Goal::Fd(_) = gl {
+                gl.visit_vars(&mut |v| {
+                    if !used.contains(&v) {
+                        used.push(v)
+                    }
+                })
+            }
+        };
+        prefix.iter().for_each(&mut collect);
+        branches.iter().flatten().for_each(&mut collect);
+        suffix.iter().for_each(&mut collect);
+        used.sort();
+        if !used.is_empty() {
+            suffix.push(Goal::Fd(FdGoal::InFdRange(Term::list(used.into_iter().map(Term::Var).collect()), 0, 4)));
+        }
+    }
+    Case { prefix, branches, suffix, nd }
+}
+
+fn run_late(bytes: &[u8], ctx: &Ctx) -> CaseInfo {
+    let mut s = Source::new(bytes);
+    let c = decode_late(&mut s);
+    let mut info = eval(&c, ctx);
+    info.class("domains-after-the-disjunction");
+    info
+}
+
 fn fixed_distinct(ctx: &Ctx) -> CaseInfo {
     // shared distinctfd constraint object updated in one branch
     let c = Case {
@@ -221,6 +355,8 @@ fn fixed_distinct(ctx: &Ctx) -> CaseInfo {
             Goal::UserUpd(1),
         ],
         branches: vec![vec![Goal::Eq(Term::Var(0), Term::Int(0)), Goal::UserUpd(2)], vec![Goal::Eq(Term::Var(1), Term::Int(0))], vec![Goal::Eq(Term::Var(2), Term::Int(2)), Goal::UserUpd(3)]],
+        suffix: vec![],
+        nd: 3,
     };
     eval(&c, ctx)
 }
@@ -232,9 +368,12 @@ pub fn run_family_pub(bytes: &[u8], ctx: &Ctx) -> CaseInfo {
 pub fn def() -> PropertyDef {
     PropertyDef {
         id: "C10",
-        rule: "a shared prefix (tree/CLP(Z) profile: ==, != over lists, pending plusz/timesz, user-state updates; FD profile: a domain for all three variables, distinctfd, ltefd/ltfd/plusfd/diseqfd, ==, user-state updates) followed by 2-3 branch goals of 1-3 goals each from the same vocabulary; the user counter is exposed in a fourth query variable by an fngoal at the end. Oracle (metamorphic): multiset(prefix, conde{A,B[,C]}) = multiset(prefix, A) + multiset(prefix, B) [+ …], also with the branches in reverse order. Non-trivial = >=2 branches have answers, the prefix is non-empty and >=2 branches touch a prefix variable or the user state; distinct = hash of the printed program",
+        rule: "a shared prefix (tree/CLP(Z) profile: ==, != over lists, pending plusz/timesz, user-state updates; FD profile: a domain for all three variables, distinctfd, ltefd/ltfd/plusfd/diseqfd, ==, user-state updates) followed by 2-3 branch goals of 1-3 goals each from the same vocabulary; the user counter is exposed in a fourth query variable by an fngoal at the end. Oracle (metamorphic): multiset(prefix, conde{A,B[,C]}) = multiset(prefix, A) + multiset(prefix, B) [+ …], also with the branches in reverse order. Non-trivial = >=2 branches have answers, the prefix is non-empty and >=2 branches touch a prefix variable or the user state; distinct = hash of the printed program. Family `late-domains`: 3-4 data variables, FD constraints (distinctfd over all or a sub-list, ltefd, ltfd, diseqfd, plusfd) posted before any domain, branches whose bindings are aimed at one prefix constraint (jointly violating it, satisfying it, touching other variables only, or unaimed), the domains posted after the disjunction; the user counter is read only when a goal updates it",
         assumptions: vec!["answers compared up to renaming and constraint equivalence"],
-        families: vec![Family { name: "prefix-branches", max_len: 120, quick: 120_000, thorough: 3_000_000, run: run_family }],
+        families: vec![
+            Family { name: "prefix-branches", max_len: 120, quick: 120_000, thorough: 3_000_000, run: run_family },
+            Family { name: "late-domains", max_len: 96, quick: 80_000, thorough: 2_000_000, run: run_late },
+        ],
         fixed: vec![Fixed { name: "shared-distinctfd-and-user-state", run: fixed_distinct }],
         witnesses: vec![],
         exhaustive: None,
